@@ -773,7 +773,11 @@ def run_execution(case: dict, *, max_invocations: int | None = None, hooks: dict
             boto.clock = run.clock
             handler = durable_execution(interp.handler, boto3_client=boto)
             lam = LambdaCtx()
-            rec = {"inv": inv, "t0": backend.now, "n_hist": len(event["InitialExecutionState"]["Operations"]), "auto0": backend.auto_changes}
+            try:
+                n_hist = len(event["InitialExecutionState"]["Operations"])
+            except Exception:  # noqa: BLE001 - deliberately malformed events (C18)
+                n_hist = -1
+            rec = {"inv": inv, "t0": backend.now, "n_hist": n_hist, "auto0": backend.auto_changes}
             run.invocations.append(rec)
             run.active_user = {}
             snap: dict = {}
